@@ -9,7 +9,7 @@ _cache = {}
 
 
 def shells(crys, chem, maxshell=5):
-    key = ("sh", id(crys), chem)
+    key = ("sh", id(crys), chem, maxshell)
     if key not in _cache:
         L, atoms = cs.atoms_of(crys)
         _cache[key] = (crys, geom.shell_distances(L, atoms, chem, maxshell=maxshell))
@@ -18,7 +18,7 @@ def shells(crys, chem, maxshell=5):
 
 def cutoff(crys, chem, k):
     """midpoint between the k-th and (k+1)-th distinct neighbour distance (k>=1)"""
-    sh = shells(crys, chem)
+    sh = shells(crys, chem, maxshell=max(5, k + 1))
     k = min(k, len(sh) - 1)
     return 0.5 * (sh[k - 1] + sh[k])
 
